@@ -5,6 +5,8 @@ import (
 	"encoding/binary"
 	"fmt"
 
+	sms "github.com/hujm2023/go-sms-protocol"
+
 	"verifmon/fw"
 	"verifmon/pdus"
 )
@@ -28,10 +30,25 @@ func layoutOf(t *pdus.Type, v *pdus.Values) []span {
 }
 
 // relay runs b through decode -> encode -> decode and judges stability.
+// relayObjs: one long-lived PDU value per type and worker process — a receive loop that decodes every frame into the
+// same value. What an earlier frame left in it must not show up in the relayed PDU.
+var relayObjs = map[string]sms.PDU{}
+
 func relay(c *fw.Case, t *pdus.Type, b []byte, canonical bool, class string) {
 	lt := t.Lib()
 	in := append([]byte(nil), b...)
+	if c.R.Chance(1, 6) {
+		refusedEncodeFirst(c)
+	}
 	d1 := t.New()
+	if canonical && c.R.Chance(1, 3) {
+		if o, ok := relayObjs[t.Key()]; ok {
+			d1 = o
+			class += "+reused-object"
+		} else {
+			relayObjs[t.Key()] = d1
+		}
+	}
 	err, psig, pd := decode(c, d1, b)
 	c.Count("inputs/"+map[bool]string{true: "canonical", false: "mutated"}[canonical], 1)
 	if psig != "" {
